@@ -13,7 +13,7 @@ TNext ==
   /\ LET e == Tr[l] IN
        \/ e.a = "start" /\ s' = Start(s, e.r, e.kind, e.dst, e.t)
        \/ e.a = "setup" /\ SetupOk(s, e.x) /\ s' = Setup(s, e.x)
-       \/ e.a = "enqueue" /\ EnqueueOk(s, e.r, e.x, e.tag, e.t) /\ s' = Enqueue(s, e.r, e.tag, e.ans, e.t)
+       \/ e.a = "enqueue" /\ EnqueueOk(s, e.r, e.x, e.tag, e.t) /\ s' = Enqueue(s, e.r, e.tag, e.ans, e.ta)     \* (retries are spaced from the answer's instant)
        \/ e.a = "confirm" /\ s' = Confirm(s, e.dst, e.tag, e.ok = 1, e.t)
        \/ e.a = "cancel" /\ s' = CancelReq(s, e.r)
        \/ e.a = "finish" /\ FinishOk(s, e.r, e.o, e.t) /\ s' = Finish(s, e.r)
